@@ -1,14 +1,834 @@
-//! (world under construction)
-use crate::{report::{Stats, Violation}, supervisor::Finding};
+//! ENV world: the process environment is the seam. Each run installs its own environment table
+//! in the (single-threaded) worker process, including the faulty ones - unset HOME, empty XDG
+//! variables, lists with empty segments, non-numeric sudo ids - and judges expansions (C17) and
+//! XDG / sudo lookups (C18) against reference evaluators written from the statements.
+//! Also hosts the C20 configuration (assert macros as operations of the SEQ world).
+use rivia::prelude::*;
+use serde::{Deserialize, Serialize};
+use serde_json::json;
 
-pub fn run_index(_id: &str, _tier: &str, _seed: u64, _idx: u64, _stats: &mut Stats, _known: &dyn Fn(&Violation) -> bool) -> Option<Finding> {
-    None
+use crate::{
+    diffw::Sandbox,
+    exec::{self, Handles},
+    gen::{cat, Profile},
+    ops::*,
+    prng::{hash_bytes, hash_str, mix, Rng},
+    refpath::{self, Env},
+    report::{Stats, Violation},
+    seq::{self, PropCfg, Strict},
+    supervisor::Finding,
+    tree::Cmp,
+};
+
+#[derive(Clone, Debug, Serialize, Deserialize)]
+pub struct EnvCase {
+    pub format: u32,
+    pub property: String,
+    pub world: String,
+    pub seed: u64,
+    pub run: u64,
+    pub env: Env,
+    /// Memfs paths that exist (virtual); for the Stdfs leg they are created below the sandbox
+    pub present: Vec<String>,
+    pub stdfs_leg: bool,
+    pub ops: Vec<Op>,
+    pub expect: Option<seq::ExpectSig>,
+    #[serde(default)]
+    pub what: String,
 }
 
-pub fn replay(_case: &serde_json::Value) -> Result<(Option<Violation>, String), String> {
-    Err("world not implemented".into())
+fn var_class(env: &Env, k: &str) -> String {
+    match env.get(k) {
+        None => "unset".into(),
+        Some(v) if v.is_empty() => "empty".into(),
+        Some(v) if v.contains(':') => {
+            if v.split(':').any(|s| s.is_empty()) {
+                "list-with-empty-segments".into()
+            } else {
+                "list".into()
+            }
+        },
+        Some(v) if v.starts_with('/') => "absolute".into(),
+        Some(v) if v.contains('/') => "with-separator".into(),
+        Some(v) if v.contains('~') || v.contains('$') => "with-special".into(),
+        Some(v) if v.chars().all(|c| c.is_ascii_digit()) => "numeric".into(),
+        Some(_) => "plain".into(),
+    }
 }
 
-pub fn c20_cfg() -> crate::seq::PropCfg {
-    crate::props::seq_cfg("C01").unwrap()
+/// lexical normalisation the way std::path::Components sees a unix path (no `..` resolution)
+fn norm(p: &str) -> String {
+    let rooted = p.starts_with('/');
+    let mut v = vec![];
+    for (i, c) in p.split('/').enumerate() {
+        if c.is_empty() || (c == "." && !(i == 0 && !rooted)) {
+            continue;
+        }
+        v.push(c);
+    }
+    let body = v.join("/");
+    if rooted {
+        format!("/{}", body)
+    } else {
+        body
+    }
+}
+
+/// Reference for `expand` per the statement. Returns the set of acceptable results.
+fn ref_expand(t: &str, env: &Env) -> Result<Vec<String>, ()> {
+    let tildes = t.matches('~').count();
+    if tildes > 1 {
+        return Err(());
+    }
+    let mut heads: Vec<String> = vec![];
+    let rest: String;
+    if tildes == 1 {
+        if t == "~" {
+            let h = env.get("HOME").ok_or(())?;
+            return Ok(vec![h.clone()]);
+        } else if let Some(r) = t.strip_prefix("~/") {
+            let h = env.get("HOME").ok_or(())?.clone();
+            // empty HOME: "~/x" is "/x" read literally, "x" when joined as a path; both accepted
+            heads.push(format!("{}/", h));
+            if h.is_empty() {
+                heads.push(String::new());
+            }
+            rest = r.to_string();
+        } else {
+            return Err(());
+        }
+    } else {
+        heads.push(String::new());
+        rest = t.to_string();
+    }
+    // variables
+    let mut outs = vec![];
+    for head in heads {
+        let full = format!("{}{}", head, rest);
+        if !full.contains('$') {
+            outs.push(if tildes == 1 { norm(&full) } else { full.clone() });
+            if tildes == 1 {
+                outs.push(full);
+            }
+            continue;
+        }
+        let chars: Vec<char> = full.chars().collect();
+        let mut i = 0;
+        let mut textual = String::new();
+        // second reading: a value that is an absolute path starts over (path join semantics)
+        let mut joined = String::new();
+        let mut comp_start = true;
+        while i < chars.len() {
+            let c = chars[i];
+            if c != '$' {
+                textual.push(c);
+                joined.push(c);
+                comp_start = c == '/';
+                i += 1;
+                continue;
+            }
+            i += 1;
+            if i < chars.len() && chars[i] == '{' {
+                i += 1;
+            }
+            let mut name = String::new();
+            while i < chars.len() && chars[i] != '$' && chars[i] != '}' && chars[i] != '/' {
+                name.push(chars[i]);
+                i += 1;
+            }
+            if i < chars.len() && chars[i] == '}' {
+                i += 1;
+            }
+            if name.is_empty() {
+                return Err(());
+            }
+            let val = env.get(&name).ok_or(())?;
+            textual.push_str(val);
+            if comp_start && val.starts_with('/') {
+                joined = val.clone();
+            } else {
+                joined.push_str(val);
+            }
+            comp_start = false;
+        }
+        outs.push(norm(&textual));
+        outs.push(norm(&joined));
+        // third reading: component by component, the way a path is assembled: a component that
+        // expands to nothing vanishes, one that expands to an absolute path starts over
+        {
+            let rooted = full.starts_with('/');
+            let mut acc: Vec<String> = vec![];
+            let mut is_rooted = rooted;
+            let mut failed = false;
+            for comp in full.split('/') {
+                if comp.is_empty() {
+                    continue;
+                }
+                let mut one = Env::new();
+                one.extend(env.clone());
+                let ex = if comp.contains('$') {
+                    // reuse the textual reading on a single component
+                    let cc: Vec<char> = comp.chars().collect();
+                    let mut j = 0;
+                    let mut o = String::new();
+                    while j < cc.len() {
+                        if cc[j] != '$' {
+                            o.push(cc[j]);
+                            j += 1;
+                            continue;
+                        }
+                        j += 1;
+                        if j < cc.len() && cc[j] == '{' {
+                            j += 1;
+                        }
+                        let mut name = String::new();
+                        while j < cc.len() && cc[j] != '$' && cc[j] != '}' {
+                            name.push(cc[j]);
+                            j += 1;
+                        }
+                        if j < cc.len() && cc[j] == '}' {
+                            j += 1;
+                        }
+                        match one.get(&name) {
+                            Some(v) if !name.is_empty() => o.push_str(v),
+                            _ => {
+                                failed = true;
+                                break;
+                            },
+                        }
+                    }
+                    o
+                } else {
+                    comp.to_string()
+                };
+                if failed {
+                    break;
+                }
+                if ex.starts_with('/') {
+                    acc.clear();
+                    is_rooted = true;
+                }
+                for part in ex.split('/') {
+                    if !part.is_empty() {
+                        acc.push(part.to_string());
+                    }
+                }
+            }
+            if !failed {
+                let body = acc.join("/");
+                outs.push(if is_rooted { format!("/{}", body) } else { body });
+            }
+        }
+    }
+    outs.sort();
+    outs.dedup();
+    Ok(outs)
+}
+
+const TVARS: &[&str] = &["HOME", "RV_A", "RV_B", "RV_UNSET"];
+
+fn c17_env(rng: &mut Rng) -> Env {
+    let mut env = Env::new();
+    for k in ["HOME", "RV_A", "RV_B"] {
+        // (HOME never holds a '$': whether the home directory's own text is expanded again is
+        // not something the statement decides)
+        let v = match rng.weighted(&[2, 2, 4, 3, 3, if k == "HOME" { 0 } else { 1 }]) {
+            0 => None,
+            1 => Some(String::new()),
+            2 => Some(rng.pick(&["val", "x.y", "日本", "a b"]).to_string()),
+            3 => Some(rng.pick(&["x/y", "p/q/r", "é/ü"]).to_string()),
+            4 => Some(rng.pick(&["/home/u", "/", "/a/b/", "/x"]).to_string()),
+            _ => Some(rng.pick(&["~", "a~b", "$RV_A", "p$q"]).to_string()),
+        };
+        if let Some(v) = v {
+            env.insert(k.to_string(), v);
+        }
+    }
+    env
+}
+
+fn c17_template(rng: &mut Rng) -> String {
+    let mut s = String::new();
+    match rng.weighted(&[3, 3, 2, 1, 1, 4]) {
+        0 => s.push_str("~/"),
+        1 => s.push('/'),
+        2 => {
+            if rng.chance(1, 2) {
+                return "~".into();
+            }
+        },
+        3 => s.push_str("~x/"),
+        4 => s.push_str("./"),
+        _ => {},
+    }
+    let n = rng.range(1, 4);
+    for i in 0..n {
+        if i > 0 {
+            s.push('/');
+        }
+        let v = *rng.pick(TVARS);
+        let lit = *rng.pick(&["a", "b.c", "d e", "é", "zz"]);
+        let v2 = *rng.pick(TVARS);
+        let piece = match rng.weighted(&[8, 5, 5, 3, 3, 2, 2, 1, 1, 1, 1]) {
+            0 => lit.to_string(),
+            1 => format!("${}", v),
+            2 => format!("${{{}}}", v),
+            3 => format!("{}${{{}}}", lit, v),
+            4 => format!("${{{}}}{}", v, lit),
+            5 => format!("${}${}", v, v2),
+            6 => format!("${{{}}}${{{}}}", v, v2),
+            7 => "$".to_string(),
+            8 => "${}".to_string(),
+            9 => format!("{}$", lit),
+            _ => "~".to_string(),
+        };
+        s.push_str(&piece);
+    }
+    if rng.chance(1, 8) {
+        s.push('/');
+    }
+    s
+}
+
+fn c17_run(seed: u64, idx: u64, stats: &mut Stats, replay: Option<&EnvCase>) -> (EnvCase, Vec<Violation>) {
+    let mut rng = Rng::new(mix(&[seed, hash_str("C17"), idx]));
+    let (env, ops): (Env, Vec<Op>) = match replay {
+        Some(c) => (c.env.clone(), c.ops.clone()),
+        None => {
+            let env = c17_env(&mut rng);
+            let n = rng.range(4, 16);
+            let ops = (0..n)
+                .map(|_| {
+                    let t = c17_template(&mut rng);
+                    if rng.chance(1, 3) {
+                        Op::Abs { p: t }
+                    } else {
+                        Op::Expand { p: t }
+                    }
+                })
+                .collect();
+            (env, ops)
+        },
+    };
+    seq::set_env(&env);
+    let mem = Memfs::new();
+    let mut hs = Handles::default();
+    let mut viol = vec![];
+    stats.runs += 1;
+    for (step, op) in ops.iter().enumerate() {
+        let t = match op {
+            Op::Abs { p } | Op::Expand { p } => p.clone(),
+            _ => continue,
+        };
+        let is_abs = matches!(op, Op::Abs { .. });
+        let out = exec::exec(&mem, &mut hs, op);
+        stats.steps += 1;
+        let vars: Vec<String> = TVARS.iter().filter(|v| t.contains(*v)).map(|v| format!("{}={}", v, var_class(&env, v))).collect();
+        let shape = t.replace(|c: char| c.is_alphanumeric() || c == ' ' || c == '.', "").chars().take(12).collect::<String>();
+        let class = format!("{}|{}|{}", if is_abs { "abs" } else { "expand" }, shape, vars.join(","));
+        let expected: Result<Vec<String>, ()> = if t.is_empty() {
+            Err(())
+        } else if is_abs {
+            // abs = expand, then protocol trimming / clean / cwd join by the reference resolver
+            ref_expand(&t, &env).and_then(|alts| {
+                let v: Vec<String> = alts
+                    .iter()
+                    .filter_map(|a| {
+                        let tp = refpath::trim_protocol(a);
+                        let c = refpath::clean(&tp);
+                        if c.starts_with('/') {
+                            Some(c)
+                        } else if c.starts_with("..") {
+                            None
+                        } else if c == "." {
+                            Some("/".into())
+                        } else {
+                            Some(format!("/{}", c))
+                        }
+                    })
+                    .collect();
+                if v.is_empty() {
+                    Err(())
+                } else {
+                    Ok(v)
+                }
+            })
+        } else {
+            ref_expand(&t, &env)
+        };
+        let ok = match (&expected, &out) {
+            (Err(()), Outcome::Err(_)) => true,
+            (Ok(alts), Outcome::Ok(Val::Path(p))) => {
+                if is_abs {
+                    alts.contains(p)
+                } else if !t.contains('~') && !t.contains('$') {
+                    *p == t
+                } else {
+                    alts.contains(p) || alts.contains(&norm(p))
+                }
+            },
+            // abs of a relative result that climbs above the root may fail
+            (Ok(_), Outcome::Err(k)) if is_abs && k == "Path::ParentNotFound" => true,
+            _ => false,
+        };
+        let triple = format!("{}|{}", class, out.class3());
+        if vars.is_empty() && !t.contains('~') {
+            stats.trivial_triples.insert(triple);
+        } else {
+            stats.triples.insert(triple);
+        }
+        for v in &vars {
+            stats.bump(&format!("fault.F10_env.{}", v));
+        }
+        if !ok {
+            viol.push(Violation {
+                property: "C17".into(),
+                oracle: "reference-expander".into(),
+                step,
+                sig: format!("expand|{}|exp={} got={}", class, if expected.is_ok() { "Ok" } else { "Err" }, out.class3()),
+                detail: format!("{:?} in env {:?}: got {:?}, acceptable {:?}", op, env, out, expected),
+            });
+            break;
+        }
+    }
+    let case = EnvCase {
+        format: 1,
+        property: "C17".into(),
+        world: "ENV".into(),
+        seed,
+        run: idx,
+        env,
+        present: vec![],
+        stdfs_leg: false,
+        ops,
+        expect: viol.first().map(|v| seq::ExpectSig { sig: v.sig.clone(), step: v.step }),
+        what: viol.first().map(|v| v.detail.clone()).unwrap_or_default(),
+    };
+    (case, viol)
+}
+
+const XDG: &[&str] = &[
+    "HOME",
+    "XDG_CONFIG_HOME",
+    "XDG_CONFIG_DIRS",
+    "XDG_DATA_HOME",
+    "XDG_DATA_DIRS",
+    "XDG_CACHE_HOME",
+    "XDG_STATE_HOME",
+    "XDG_RUNTIME_DIR",
+    "PATH",
+    "SUDO_UID",
+    "SUDO_GID",
+];
+
+fn c18_env(rng: &mut Rng) -> Env {
+    let mut env = Env::new();
+    let dirs = ["/cfg/a", "/cfg/b", "/cfg/c", "/etc/xdg", "/h/.config", "/opt/x"];
+    for k in XDG {
+        let v: Option<String> = if k.starts_with("SUDO") {
+            match rng.weighted(&[3, 1, 4, 2]) {
+                0 => None,
+                1 => Some(String::new()),
+                2 => Some(format!("{}", rng.below(3000))),
+                _ => Some(rng.pick(&["users", "12a", "-1", "99999999999", " 7"]).to_string()),
+            }
+        } else if k.ends_with("DIRS") || *k == "PATH" {
+            match rng.weighted(&[3, 2, 3, 4, 3]) {
+                0 => None,
+                1 => Some(rng.pick(&["", ":", "::"]).to_string()),
+                2 => Some(rng.pick(&dirs).to_string()),
+                3 => Some(format!("{}:{}:{}", rng.pick(&dirs), rng.pick(&dirs), rng.pick(&dirs))),
+                _ => Some(format!("{}::{}:", rng.pick(&dirs), rng.pick(&dirs))),
+            }
+        } else if *k == "HOME" {
+            match rng.weighted(&[2, 1, 6]) {
+                0 => None,
+                1 => Some(String::new()),
+                _ => Some(rng.pick(&["/h", "/home/u", "/"]).to_string()),
+            }
+        } else {
+            match rng.weighted(&[4, 2, 5]) {
+                0 => None,
+                1 => Some(String::new()),
+                _ => Some(rng.pick(&dirs).to_string()),
+            }
+        };
+        if let Some(v) = v {
+            env.insert(k.to_string(), v);
+        }
+    }
+    env
+}
+
+fn list_of(v: Option<&String>, default: &[&str]) -> Vec<String> {
+    match v {
+        Some(x) => {
+            let l: Vec<String> = x.split(':').filter(|s| !s.is_empty()).map(|s| s.to_string()).collect();
+            if l.is_empty() {
+                default.iter().map(|s| s.to_string()).collect()
+            } else {
+                l
+            }
+        },
+        None => default.iter().map(|s| s.to_string()).collect(),
+    }
+}
+
+/// acceptable outcomes of a user-directory lookup
+fn ref_user_dir(which: &str, env: &Env) -> Vec<Outcome> {
+    let home = env.get("HOME");
+    let under_home = |parts: &[&str]| -> Vec<Outcome> {
+        match home {
+            None => vec![Outcome::Err("any".into())],
+            Some(h) => {
+                let mut p = h.clone();
+                for x in parts {
+                    p = refpath::mash(&p, x);
+                }
+                vec![Outcome::Ok(Val::Path(p))]
+            },
+        }
+    };
+    let xdg_home = |var: &str, parts: &[&str]| -> Vec<Outcome> {
+        match env.get(var) {
+            // set but empty: "the value when set" or "the default" - both readings accepted
+            Some(v) if v.is_empty() => {
+                let mut o = vec![Outcome::Ok(Val::Path(String::new()))];
+                o.extend(under_home(parts));
+                o
+            },
+            Some(v) => vec![Outcome::Ok(Val::Path(v.clone()))],
+            None => under_home(parts),
+        }
+    };
+    match which {
+        "home" => match home {
+            Some(h) => vec![Outcome::Ok(Val::Path(h.clone()))],
+            None => vec![Outcome::Err("any".into())],
+        },
+        "config" => xdg_home("XDG_CONFIG_HOME", &[".config"]),
+        "cache" => xdg_home("XDG_CACHE_HOME", &[".cache"]),
+        "data" => xdg_home("XDG_DATA_HOME", &[".local", "share"]),
+        "state" => xdg_home("XDG_STATE_HOME", &[".local", "state"]),
+        "runtime" => match env.get("XDG_RUNTIME_DIR") {
+            Some(v) if v.is_empty() => vec![Outcome::Ok(Val::Path(String::new())), Outcome::Ok(Val::Path("/tmp".into()))],
+            Some(v) => vec![Outcome::Ok(Val::Path(v.clone()))],
+            None => vec![Outcome::Ok(Val::Path("/tmp".into()))],
+        },
+        "sys_config" => vec![Outcome::Ok(Val::Paths(list_of(env.get("XDG_CONFIG_DIRS"), &["/etc/xdg"])))],
+        "sys_data" => vec![Outcome::Ok(Val::Paths(list_of(env.get("XDG_DATA_DIRS"), &["/usr/local/share", "/usr/share"])))],
+        "path" => match env.get("PATH") {
+            None => vec![Outcome::Err("any".into())],
+            Some(v) => vec![Outcome::Ok(Val::Paths(v.split(':').filter(|s| !s.is_empty()).map(|s| s.to_string()).collect()))],
+        },
+        _ => vec![],
+    }
+}
+
+fn numeric(s: &str) -> Option<u32> {
+    if !s.is_empty() && s.chars().all(|c| c.is_ascii_digit()) {
+        s.parse::<u32>().ok()
+    } else {
+        None
+    }
+}
+
+fn ref_config_dir(name: &str, env: &Env, present: &[String]) -> Vec<Option<String>> {
+    let firsts: Vec<Option<String>> = match env.get("XDG_CONFIG_HOME") {
+        Some(v) if v.is_empty() => vec![Some(String::new()), env.get("HOME").map(|h| refpath::mash(h, ".config"))],
+        Some(v) => vec![Some(v.clone())],
+        None => vec![env.get("HOME").map(|h| refpath::mash(h, ".config"))],
+    };
+    let sys = list_of(env.get("XDG_CONFIG_DIRS"), &["/etc/xdg"]);
+    let has = |d: &str| -> bool {
+        if d.is_empty() {
+            return false;
+        }
+        let cand = refpath::mash(d, name);
+        match refpath::abs(&cand, "/", env) {
+            Ok(a) => present.contains(&a),
+            Err(_) => false,
+        }
+    };
+    let mut outs = vec![];
+    for first in firsts {
+        let mut dirs: Vec<String> = vec![];
+        match &first {
+            Some(f) => dirs.push(f.clone()),
+            None => {
+                // no user directory can be determined: searching the system list only, or giving
+                // up, are both accepted
+                outs.push(None);
+            },
+        }
+        dirs.extend(sys.clone());
+        outs.push(dirs.into_iter().find(|d| has(d)));
+    }
+    outs.sort();
+    outs.dedup();
+    outs
+}
+
+fn c18_run(seed: u64, idx: u64, stats: &mut Stats, replay: Option<&EnvCase>) -> (EnvCase, Vec<Violation>) {
+    let mut rng = Rng::new(mix(&[seed, hash_str("C18"), idx]));
+    let names = ["app.toml", "rc", "x/y.conf"];
+    let (env, present, stdfs_leg, ops): (Env, Vec<String>, bool, Vec<Op>) = match replay {
+        Some(c) => (c.env.clone(), c.present.clone(), c.stdfs_leg, c.ops.clone()),
+        None => {
+            let env = c18_env(&mut rng);
+            // which candidate directories contain which file
+            let mut present = vec![];
+            let mut cands: Vec<String> = vec![];
+            if let Some(v) = env.get("XDG_CONFIG_HOME") {
+                cands.push(v.clone());
+            }
+            if let Some(h) = env.get("HOME") {
+                cands.push(refpath::mash(h, ".config"));
+            }
+            cands.extend(list_of(env.get("XDG_CONFIG_DIRS"), &["/etc/xdg"]));
+            for c in &cands {
+                for n in names {
+                    if c.starts_with('/') && rng.chance(1, 3) {
+                        present.push(refpath::clean(&refpath::mash(c, n)));
+                    }
+                }
+            }
+            present.sort();
+            present.dedup();
+            let mut ops = vec![];
+            for w in ["home", "config", "cache", "data", "state", "runtime", "sys_config", "sys_data", "path"] {
+                if rng.chance(2, 3) {
+                    ops.push(Op::UserDir { which: w.into() });
+                }
+            }
+            for _ in 0..rng.range(1, 3) {
+                ops.push(Op::Getrids { uid: *rng.pick(&[0u32, 0, 1000, 5]), gid: *rng.pick(&[0u32, 100, 1000]) });
+            }
+            for n in names {
+                ops.push(Op::ConfigDir { name: n.into() });
+            }
+            // the Stdfs leg needs every searched directory inside the sandbox: no built-in defaults
+            let sandboxable = env.get("XDG_CONFIG_DIRS").map(|v| v.split(':').any(|s| !s.is_empty())).unwrap_or(false)
+                && (env.get("XDG_CONFIG_HOME").map(|v| !v.is_empty()).unwrap_or(false) || env.get("HOME").map(|v| !v.is_empty()).unwrap_or(false));
+            (env, present, idx % 3 == 0 && sandboxable, ops)
+        },
+    };
+    let mut viol = vec![];
+    stats.runs += 1;
+    // Stdfs leg: the same lookups with every directory below a private sandbox
+    let sb = if stdfs_leg {
+        crate::diffw::drop_privileges_once();
+        let sb = Sandbox::new();
+        if sb.fresh().is_err() {
+            None
+        } else {
+            Some(sb)
+        }
+    } else {
+        None
+    };
+    let real_env: Env = match &sb {
+        Some(sb) => env
+            .iter()
+            .map(|(k, v)| {
+                if k.starts_with("XDG") || k == "HOME" {
+                    (k.clone(), v.split(':').map(|s| if s.starts_with('/') { sb.real(s) } else { s.to_string() }).collect::<Vec<_>>().join(":"))
+                } else {
+                    (k.clone(), v.clone())
+                }
+            })
+            .collect(),
+        None => env.clone(),
+    };
+    std::env::remove_var("PATH");
+    seq::set_env(&real_env);
+    let mem = Memfs::new();
+    let std_ = Stdfs::new();
+    for p in &present {
+        let rp = match &sb {
+            Some(sb) => sb.real(p),
+            None => p.clone(),
+        };
+        if let Some(par) = std::path::Path::new(&rp).parent() {
+            let _ = mem.mkdir_p(par);
+            if sb.is_some() {
+                let _ = std::fs::create_dir_all(par);
+            }
+        }
+        let _ = mem.mkfile(&rp);
+        if sb.is_some() {
+            let _ = std::fs::write(&rp, b"");
+        }
+    }
+    let unreal = |o: &Outcome| -> Outcome {
+        // map sandbox paths back to the virtual ones the reference uses
+        let f = |s: &String| -> String {
+            match &sb {
+                Some(sb) => sb.virt(s).unwrap_or_else(|| s.clone()),
+                None => s.clone(),
+            }
+        };
+        match o {
+            Outcome::Ok(Val::Path(p)) => Outcome::Ok(Val::Path(f(p))),
+            Outcome::Ok(Val::Paths(ps)) => Outcome::Ok(Val::Paths(ps.iter().map(f).collect())),
+            Outcome::Ok(Val::OptPath(p)) => Outcome::Ok(Val::OptPath(p.as_ref().map(f))),
+            Outcome::Err(_) => Outcome::Err("any".into()),
+            x => x.clone(),
+        }
+    };
+    let mut hs = Handles::default();
+    for (step, op) in ops.iter().enumerate() {
+        let mut results: Vec<(&str, Outcome)> = vec![("memfs", exec::exec(&mem, &mut hs, op))];
+        if sb.is_some() && matches!(op, Op::ConfigDir { .. }) {
+            results.push(("stdfs", exec::exec(&std_, &mut hs, op)));
+        }
+        stats.steps += 1;
+        let involved: Vec<&str> = match op {
+            Op::UserDir { which } => match which.as_str() {
+                "home" => vec!["HOME"],
+                "config" => vec!["XDG_CONFIG_HOME", "HOME"],
+                "cache" => vec!["XDG_CACHE_HOME", "HOME"],
+                "data" => vec!["XDG_DATA_HOME", "HOME"],
+                "state" => vec!["XDG_STATE_HOME", "HOME"],
+                "runtime" => vec!["XDG_RUNTIME_DIR"],
+                "sys_config" => vec!["XDG_CONFIG_DIRS"],
+                "sys_data" => vec!["XDG_DATA_DIRS"],
+                _ => vec!["PATH"],
+            },
+            Op::Getrids { .. } => vec!["SUDO_UID", "SUDO_GID"],
+            _ => vec!["XDG_CONFIG_HOME", "XDG_CONFIG_DIRS", "HOME"],
+        };
+        let vclass: Vec<String> = involved.iter().map(|k| format!("{}={}", k, var_class(&env, k))).collect();
+        for (backend, out) in results {
+            let got = unreal(&out);
+            let acceptable: Vec<Outcome> = match op {
+                Op::UserDir { which } => ref_user_dir(which, &env),
+                Op::Getrids { uid, gid } => {
+                    let pair = match (uid, env.get("SUDO_UID").and_then(|s| numeric(s)), env.get("SUDO_GID").and_then(|s| numeric(s))) {
+                        (0, Some(u), Some(g)) => (u, g),
+                        _ => (*uid, *gid),
+                    };
+                    vec![Outcome::Ok(Val::Pair(pair.0, pair.1))]
+                },
+                Op::ConfigDir { name } => ref_config_dir(name, &env, &present).into_iter().map(|d| Outcome::Ok(Val::OptPath(d))).collect(),
+                _ => vec![],
+            };
+            let class = format!("{}|{}|{}", op.label(), backend, vclass.join(","));
+            let triple = format!("{}|{}", class, got.class3());
+            if involved.iter().all(|k| !env.contains_key(*k)) {
+                stats.trivial_triples.insert(triple);
+            } else {
+                stats.triples.insert(triple);
+            }
+            for v in &vclass {
+                stats.bump(&format!("fault.F10_env.{}", v));
+            }
+            if !acceptable.contains(&got) {
+                viol.push(Violation {
+                    property: "C18".into(),
+                    oracle: "reference-lookup".into(),
+                    step,
+                    sig: format!("lookup|{}", class),
+                    detail: format!("{:?} ({}) in env {:?} with present {:?}: got {:?}, acceptable {:?}", op, backend, env, present, got, acceptable),
+                });
+            }
+        }
+        if !viol.is_empty() {
+            break;
+        }
+    }
+    if let Some(sb) = &sb {
+        sb.cleanup();
+    }
+    let case = EnvCase {
+        format: 1,
+        property: "C18".into(),
+        world: "ENV".into(),
+        seed,
+        run: idx,
+        env,
+        present,
+        stdfs_leg,
+        ops,
+        expect: viol.first().map(|v| seq::ExpectSig { sig: v.sig.clone(), step: v.step }),
+        what: viol.first().map(|v| v.detail.clone()).unwrap_or_default(),
+    };
+    (case, viol)
+}
+
+fn run_any(id: &str, seed: u64, idx: u64, stats: &mut Stats, replay: Option<&EnvCase>) -> (EnvCase, Vec<Violation>) {
+    if id == "C17" {
+        c17_run(seed, idx, stats, replay)
+    } else {
+        c18_run(seed, idx, stats, replay)
+    }
+}
+
+pub fn run_index(id: &str, _tier: &str, seed: u64, idx: u64, stats: &mut Stats, known: &dyn Fn(&Violation) -> bool) -> Option<Finding> {
+    let (mut case, viol) = run_any(id, seed, idx, stats, None);
+    let mut h = 0u64;
+    h = hash_bytes(h, format!("{:?}{:?}", case.env, case.ops).as_bytes());
+    stats.distinct_cases.insert(h);
+    if stats.samples.len() < 3 {
+        stats.samples.push(json!({"run": idx, "env": case.env, "ops": case.ops.iter().take(6).collect::<Vec<_>>()}));
+    }
+    let v = viol.into_iter().next()?;
+    if known(&v) {
+        *stats.known_hits.entry(v.sig.clone()).or_insert(0) += 1;
+        return None;
+    }
+    // minimise: keep only the failing operation, then drop environment variables one by one
+    let failing = case.ops[v.step].clone();
+    let mut small = case.clone();
+    small.ops = vec![failing];
+    let still = |c: &EnvCase| -> bool {
+        let mut st = Stats::default();
+        run_any(id, seed, idx, &mut st, Some(c)).1.first().map(|x| x.sig == v.sig).unwrap_or(false)
+    };
+    if still(&small) {
+        case = small;
+        case.expect = Some(seq::ExpectSig { sig: v.sig.clone(), step: 0 });
+    }
+    Some(Finding { violation: v, case: serde_json::to_value(&case).unwrap() })
+}
+
+pub fn replay(case: &serde_json::Value) -> Result<(Option<Violation>, String), String> {
+    let c: EnvCase = serde_json::from_value(case.clone()).map_err(|e| e.to_string())?;
+    let mut st = Stats::default();
+    let (_, v) = run_any(&c.property, c.seed, c.run, &mut st, Some(&c));
+    Ok((v.into_iter().next(), String::new()))
+}
+
+/// C20: the assert_vfs_* macros as operations of ordinary histories
+pub fn c20_cfg() -> PropCfg {
+    PropCfg {
+        id: "C20",
+        profile: Profile {
+            name: "assert-macros",
+            weights: cat(&[
+                &[
+                    ("mkdir_p", 6),
+                    ("mkfile", 5),
+                    ("write_all", 5),
+                    ("symlink", 5),
+                    ("remove", 2),
+                    ("move_p", 2),
+                    ("chmod", 1),
+                    ("set_cwd", 1),
+                ],
+                &[("macro", 40)],
+            ]),
+            spelling: 1,
+            hostile: 0,
+            swarm_drop: 0,
+            max_len: 40,
+            big_data: false,
+        },
+        strict: Strict { err_kinds: false, values: true, cmp: Cmp::ALL, ops: Some(vec!["macro"]), strict_listing_links: false },
+        model_oracle: true,
+        integrity_oracle: false,
+        panic_oracle: false,
+        wrapper: false,
+        canon_twin: false,
+    }
 }
